@@ -1,7 +1,7 @@
 """spec -> code: replays TLC-generated behaviours into real H2Connection objects
 and compares each step's observation with the model's prediction.  Equality of
 JSON values is the only judgement made here."""
-import copy
+
 import json
 import multiprocessing
 import os
@@ -67,13 +67,13 @@ def run_behaviour(meta, steps, catalogue, check_setup=True):
 
 
 def resolve(s, catalogue):
-    s = copy.deepcopy(s)
-    if 'c' in s and 'h' in s['c'] and isinstance(s['c']['h'], str):
-        s['c']['h'] = catalogue[s['c']['h']]
-    if 'fs' in s:
-        for f in s['fs']:
-            if 'h' in f and isinstance(f['h'], str):
-                f['h'] = catalogue[f['h']]
+    # shallow: only the parts that change are copied (the prediction is large and is left alone)
+    if 'c' in s and isinstance(s['c'].get('h'), str):
+        s = dict(s)
+        s['c'] = dict(s['c'], h=catalogue[s['c']['h']])
+    elif 'fs' in s and any(isinstance(f.get('h'), str) for f in s['fs']):
+        s = dict(s)
+        s['fs'] = [dict(f, h=catalogue[f['h']]) if isinstance(f.get('h'), str) else f for f in s['fs']]
     return s
 
 
@@ -85,10 +85,14 @@ def _init(meta, catalogue):
     _G['cat'] = catalogue
 
 
-def _work(chunk):
+def _work(rng):
+    """rng = (lo, hi): indices into the behaviours the parent put into _G before forking
+    (nothing large is pickled: the children share the parent's memory)."""
     out = []
     n = 0
-    for i, steps in chunk:
+    traces = _G['traces']
+    for i in range(rng[0], rng[1]):
+        steps = traces[i]
         n += len(steps)
         r = run_behaviour(_G['meta'], steps, _G['cat'])
         if r is not None:
@@ -97,23 +101,25 @@ def _work(chunk):
     return out, n
 
 
-def replay_all(meta, traces, catalogue, procs=8, chunk=200):
+def replay_all(meta, traces, catalogue, procs=8, chunk=100):
     """Returns (divergences, n_behaviours, n_steps)."""
-    items = list(enumerate(traces))
-    chunks = [items[i:i + chunk] for i in range(0, len(items), chunk)]
+    ranges = [(i, min(i + chunk, len(traces))) for i in range(0, len(traces), chunk)]
     divs = []
     steps = 0
-    if procs <= 1 or len(chunks) <= 1:
-        _init(meta, catalogue)
-        for c in chunks:
+    _init(meta, catalogue)
+    _G['traces'] = traces
+    if procs <= 1 or len(ranges) <= 1:
+        for c in ranges:
             d, n = _work(c)
             divs += d
             steps += n
     else:
-        with multiprocessing.Pool(procs, initializer=_init, initargs=(meta, catalogue)) as pool:
-            for d, n in pool.imap_unordered(_work, chunks):
+        ctx = multiprocessing.get_context('fork')
+        with ctx.Pool(procs) as pool:
+            for d, n in pool.imap_unordered(_work, ranges):
                 divs += d
                 steps += n
+    _G['traces'] = None
     return divs, len(traces), steps
 
 
